@@ -32,7 +32,10 @@ RULE = ("six families x designs n 20..120 (quick) / 20..500 (thorough), p 1..6 w
         "initial_working_response/weights) on domain-boundary lists and random points, GLM::set_coef after a fit / on a fresh "
         "object / before a (re)fit with right and wrong lengths; object histories on ONE GLM: k fits with setters in between (op "
         "hist) and fits interleaved with READS of every accessor without any setter in between, with pub-field assignment, shape "
-        "changes and read-set-read chains (op hist2), every fit / read compared with a fresh twin; "
+        "changes and read-set-read chains (op hist2), every fit / read compared with a fresh twin; exact coincidences: offsets "
+        "summing to exactly 0.0 (+-ln 2 alternating, +-c pairs, [c, c, -2c], antisymmetric, centred integers), constant, single "
+        "non-zero, equal to a design column; weights all 1 / all 2 / with exact zeros / summing to exactly n; Gaussian responses "
+        "summing to exactly 0; "
         "non-trivial = distinct (family, p, weights?, offset?, alpha, tolerance decade, status)")
 EXHAUSTIVE = {"quick": False, "thorough": False}
 NOT_PROVED = [
@@ -348,6 +351,13 @@ def corpus():
                  ("F", 0, 0.0, 1e-10, 200, (12, 2, xa, y2, None, None)), ("R",),
                  ("F", 0, 0.0, 1e-10, 200, (20, 1, [1.0] * 20, [2.0, 4.0] * 10, None, None)), ("R",)]
         L.append(h2_line(fam_, steps))
+    # seeded change C06v (offsets dropped when their float sum is exactly 0): Poisson n = 40, p = 2, exposures alternating
+    # 2 : 1/2 (offsets +ln 2 / -ln 2, sum exactly 0.0) and correlated with the covariate; without / with ridge penalty
+    xo = [v for i in range(40) for v in (1.0, (1.0 if i % 2 == 0 else -1.0) * (0.6 + 0.02 * (i % 7)) + 0.05 * ((i * 7) % 11 - 5))]
+    oo = [LN2 if i % 2 == 0 else -LN2 for i in range(40)]
+    yo = [float(v) for v in [7, 1, 9, 2, 6, 1, 8, 0, 10, 2, 7, 1, 5, 2, 9, 1, 8, 3, 6, 1, 11, 1, 7, 2, 9, 0, 6, 1, 8, 2, 10, 1, 7, 1, 6, 2, 9, 1, 8, 1]]
+    L.append(mkline("poisson", 40, 2, xo, yo, None, oo, 0.0, 1e-10, 200))
+    L.append(mkline("poisson", 40, 2, xo, yo, None, oo, 0.1, 1e-10, 200))
     # panic classes
     L.append(mkline("gaussian", 6, 2, [2.0] + x[1:], y, None, None, 0.0, 1e-8, 50))          # not a design matrix
     L.append(mkline("gaussian", 6, 2, x, y, [1.0, 2.0], None, 0.0, 1e-8, 50))                 # wrong number of weights
@@ -410,6 +420,7 @@ def gen(rng, tier):
     setcoef_strata(rng.fork("setcoef"), tier, lines, cover)
     history_strata(rng.fork("history"), tier, lines, cover)
     read_history_strata(rng.fork("read-history"), tier, lines, cover)
+    coincidence_strata(rng.fork("coincidence"), tier, lines, cover)
     return lines, cover
 
 
@@ -972,6 +983,110 @@ def read_history_strata(rng, tier, lines, cover):
                 g[tag] = g.get(tag, 0) + 1
                 g["reads"] = g.get("reads", 0) + len(tw)
                 g["fits"] = g.get("fits", 0) + sum(1 for st in steps if st[0] == "F")
+
+
+# ---------------------------------------------------------------- exact coincidences in offsets / weights / responses
+LN2 = math.log(2.0)
+OFFSET_KINDS = ["pm-ln2-alternating", "pm-pairs-dyadic", "c-c-minus2c", "antisymmetric", "centred-integers", "constant", "single",
+                "design-column"]
+WEIGHT_KINDS2 = ["all-one", "all-two", "exact-zeros", "sum-exactly-n"]
+
+
+def coincidence_offsets(rng, n, kind, xcol):
+    """offsets with an exact coincidence; the first five kinds sum to exactly 0.0 in doubles (any summation order for the dyadic
+    ones, the source's 8-way order for the alternating one) without being zero"""
+    if kind == "pm-ln2-alternating":          # balanced exposures 2 : 1/2, alternating, n even
+        return [LN2 if i % 2 == 0 else -LN2 for i in range(n)]
+    if kind == "pm-pairs-dyadic":
+        c = rng.choice([0.5, 0.25, 1.5, 2.0])
+        o = [c] * (n // 2) + [-c] * (n // 2) + [0.0] * (n % 2)
+        return rng.shuffle(o)
+    if kind == "c-c-minus2c":
+        c = rng.choice([0.5, 0.25, 0.125])
+        o = ([c, c, -2 * c] * (n // 3 + 1))[:n - n % 3] + [0.0] * (n % 3)
+        return o
+    if kind == "antisymmetric":
+        h = [rng.randint(-8, 8) / 8.0 for _ in range(n // 2)]
+        return h + ([0.0] if n % 2 else []) + [-v for v in reversed(h)]
+    if kind == "centred-integers":
+        o = [float(rng.randint(-2, 2)) for _ in range(n - 1)]
+        o.append(-sum(o))
+        return o
+    if kind == "constant":
+        return [rng.choice([LN2, 0.5, -1.0, 3.0])] * n
+    if kind == "single":
+        o = [0.0] * n
+        o[rng.randint(0, n - 1)] = rng.choice([1.0, -2.0, LN2])
+        return o
+    return list(xcol)
+
+
+def coincidence_weights(rng, n, kind):
+    if kind == "all-one":
+        return [1.0] * n
+    if kind == "all-two":
+        return [2.0] * n
+    if kind == "exact-zeros":
+        w = [rng.choice([1.0, 2.0, 0.5]) for _ in range(n)]
+        for k in rng.shuffle(list(range(n)))[:max(1, n // 8)]:
+            w[k] = 0.0
+        return w
+    w = [0.5] * (n // 2) + [1.5] * (n // 2) + [1.0] * (n % 2)      # sums to exactly n
+    return rng.shuffle(w)
+
+
+def coincidence_problem(rng, fam, n, okind, wkind):
+    """intercept + one column; the offsets are CORRELATED with the column (for the alternating kind the column follows the sign of
+    the offset), so that ignoring them moves the fitted slope far beyond any tolerance"""
+    p = 2
+    if okind == "pm-ln2-alternating":
+        col = standardise([(1.0 if i % 2 == 0 else -1.0) + 0.5 * rng.normal() for i in range(n)])
+    else:
+        col = standardise([rng.normal() for _ in range(n)])
+    x = [v for i in range(n) for v in (1.0, col[i])]
+    off = coincidence_offsets(rng, n, okind, col) if okind else None
+    if okind in ("pm-pairs-dyadic", "antisymmetric", "centred-integers", "c-c-minus2c") and off is not None:
+        # make the column follow the offsets as well
+        col = standardise([0.8 * o + 0.6 * rng.normal() for o in off])
+        x = [v for i in range(n) for v in (1.0, col[i])]
+    w = coincidence_weights(rng, n, wkind) if wkind else None
+    b0 = rng.uniform(0.3, 1.2) if fam not in ("gaussian", "bernoulli") else rng.uniform(-0.5, 0.5)
+    y = respond(rng, fam, n, p, x, off, b0=b0, bscale=0.5)
+    if fam == "gaussian" and rng.chance(0.3):
+        h = [rng.randint(-16, 16) / 8.0 for _ in range(n // 2)]
+        y = h + ([0.0] if n % 2 else []) + [-v for v in reversed(h)]          # responses summing to exactly 0: mean(y) = 0
+    return (n, p, x, y, w, off)
+
+
+def coincidence_strata(rng, tier, lines, cover):
+    g = cover.setdefault("coincidence", {})
+    reps = 1 if tier == "quick" else 4
+    for rep in range(reps):
+        for fam in FAMILIES:
+            nmin = 30 if fam == "bernoulli" else 24
+            for okind in OFFSET_KINDS:
+                n = 2 * rng.randint(nmin // 2, 30)
+                pr = coincidence_problem(rng, fam, n, okind, None)
+                a = rng.choice([0.0, 0.0, 0.1, 1.0])
+                lines.append(mkline(fam, *pr, a, 1e-10, 200))
+                g["offsets:" + okind] = g.get("offsets:" + okind, 0) + 1
+            for wkind in WEIGHT_KINDS2:
+                n = 2 * rng.randint(nmin // 2, 30)
+                pr = coincidence_problem(rng, fam, n, rng.choice([None, "pm-pairs-dyadic", "constant"]), wkind)
+                lines.append(mkline(fam, *pr, rng.choice([0.0, 0.1]), 1e-10, 200))
+                g["weights:" + wkind] = g.get("weights:" + wkind, 0) + 1
+            # through the object histories: offsets that sum to 0 set once and kept for a second fit, then replaced by zeros
+            n = 2 * rng.randint(nmin // 2, 24)
+            A = coincidence_problem(rng, fam, n, rng.choice(OFFSET_KINDS[:5]), None)
+            B0 = coincidence_problem(rng, fam, n, None, None)
+            C = coincidence_problem(rng, fam, n, "constant", rng.choice(WEIGHT_KINDS2))
+            steps = [("F", 1, 0.0, 1e-10, 200, A), ("R",), ("F", 0, 0.0, 1e-10, 200, B0), ("R",),
+                     ("SO", [0.0] * n), ("F", 0, 0.0, 1e-10, 200, B0), ("R",), ("F", 0, 0.0, 1e-10, 200, C), ("R",)]
+            lines.append(h2_line(fam, steps))
+            tw = h2_twins(fam, steps)
+            lines.append("# twins2 %d" % len(tw))
+            lines.extend(l if l is not None else "# none" for l in tw)
+            g["history"] = g.get("history", 0) + 1
 
 
 def nontrivial(line, reply):
